@@ -52,7 +52,9 @@ def history_cases(draw):
             steps.append(("elevate", draw(st.sampled_from([1, 1, 2]))))
     cleans = draw(st.lists(st.sampled_from(["knot_clean", "degree_clean", "clean"]), min_size=1, max_size=4))
     return {"curve": c, "steps": steps, "cleans": cleans, "tol": draw(TOLS),
-            "nudge": draw(st.sampled_from([None, None, None, F(1, 10 ** 6), F(1, 10 ** 7)]))}
+            "nudge": draw(st.sampled_from([None, None, None, F(1, 10 ** 6), F(1, 10 ** 7)])),
+            "kink": draw(st.sampled_from([None, None, None, (F(1, 100), 1), (F(1, 100), 1000), (F(1, 10), 10 ** 5),
+                                          (F(1, 50), 30)]))}
 
 
 def resolve_nodes(sels, U, p):
@@ -127,7 +129,11 @@ def run_cleans(curve, ref, cleans, out, klass, minimal=None, tol=None):
         after = lib.state_of(curve)
         wit = oracle.same_function(ref, after)
         if wit is not None:
-            if tol in (None, "default") and ref.w is None and after.w is None and sq_integral(ref, after) <= F(1, 10 ** 6):
+            # "never by more than the tolerance allows": k accepted fits of squared L2 error <= 2e-9 each add up to
+            # at most (k * sqrt(2e-9))^2 (k over-estimated by the number of knots that disappeared)
+            nfits = len(ref.U) - len(after.U) + 1
+            allowed = nfits * nfits * 2 * F(1, 10 ** 9) * max(F(1), ref.U[-1] - ref.U[0])
+            if tol in (None, "default") and ref.w is None and after.w is None and sq_integral(ref, after) <= allowed:
                 lossy = True
                 out.exclude("tolerance-accepted-inexact-removal")
                 return None
@@ -216,6 +222,19 @@ def check_history(case, out):
         nudged = lib.state_of(curve)
         out.cls("nearly-removable;tolerance=0")
         run_cleans(curve, nudged, case["cleans"], out, "history;nearly-removable", None, tolk)
+        return
+    if case.get("kink") and tolk in (None, "default") and (has_ins or has_elev) and len(refined.P) >= 3:
+        # a small kink on a curve of any size: every control point times M, then one of them moved by 1/100 .. 1/10.
+        # Removing what the kink needs costs about kink^2, far above the default tolerance whatever M is: the clean
+        # calls may change the function by what the tolerance allows and no more
+        kink, M = case["kink"]
+        k = len(refined.P) // 2
+        moved = [tuple(x * M + (kink if i == k and j == 0 else 0) for j, x in enumerate(pt))
+                 for i, pt in enumerate(refined.P)]
+        curve.ctrlpoints = [pt[0] for pt in moved] if refined.scalar else lib.conv_points([list(pt) for pt in moved], "frac")
+        kinked = lib.state_of(curve)
+        out.cls("kink;default-tolerance", f"magnitude={M}")
+        run_cleans(curve, kinked, case["cleans"], out, "history;kink", None, tolk)
         return
     out.cls("ins" if has_ins else "", "elev" if has_elev else "", "cleans=" + "+".join(case["cleans"]),
             f"pmin={pm}")
